@@ -495,8 +495,53 @@ class Cursor:
         self._pos = len(rows)
         return out
 
+    def fetchmany(self, n=1):
+        rows = self._force()
+        out = rows[self._pos:self._pos + n]
+        self._pos += len(out)
+        return out
+
     def __iter__(self):
         return iter(self.fetchall())
+
+    def close(self):
+        pass
+
+
+class ConnCursor:
+    """db.cursor(): statements go to the connection, results are read from the last one"""
+
+    def __init__(self, store):
+        self._store, self._cur = store, None
+        self.lastrowid, self.rowcount = None, -1
+
+    def execute(self, sql, params=()):
+        self._cur = self._store.execute(sql, params)
+        self.lastrowid, self.rowcount = self._cur.lastrowid, self._cur.rowcount
+        return self
+
+    def executemany(self, sql, seq):
+        self._cur = self._store.executemany(sql, seq)
+        return self
+
+    def executescript(self, script):
+        self._store.executescript(script)
+        return self
+
+    def fetchone(self):
+        return self._cur.fetchone() if self._cur is not None else None
+
+    def fetchall(self):
+        return self._cur.fetchall() if self._cur is not None else []
+
+    def fetchmany(self, n=1):
+        return self.fetchall()[:n]
+
+    def __iter__(self):
+        return iter(self.fetchall())
+
+    def close(self):
+        pass
 
 
 class Snapshot:
@@ -833,6 +878,33 @@ class RelStore:
             self.tables[t].rows = [r.copy() for r in rows]
             self.tables[t].next_id = snap.next_id[t]
         self.indexes = dict(snap.indexes)
+
+    # ---- more of the sqlite3.Connection surface (used by plausible refactorings) ----
+    @property
+    def in_transaction(self):
+        return bool(self.in_tx or self.dirty)
+
+    isolation_level = ""
+
+    def cursor(self):
+        return ConnCursor(self)
+
+    def executemany(self, sql, seq):
+        cur = None
+        for params in seq:
+            cur = self.execute(sql, params)
+        return cur if cur is not None else Cursor(self, [])
+
+    def __enter__(self):
+        return self
+
+    def __exit__(self, et, ev, tb):
+        # sqlite3's context manager: commit on success, roll back on an exception, never swallow it
+        if et is None:
+            self.commit()
+        elif not issubclass(et, (BaseException,)) or issubclass(et, Exception):
+            self.rollback()
+        return False
 
     def executescript(self, script):
         if self.closed:
